@@ -1643,8 +1643,10 @@ static int get_actual_peer_names_attr(struct xcm_socket *s, void *value,
     struct btls_socket *bts = TOBTLS(s);
     X509 *remote_cert = SSL_get_peer_certificate(bts->conn.ssl);
 
-    if (remote_cert == NULL)
-	return 0;
+    if (remote_cert == NULL) {
+	errno = ENOENT;
+	return -1;
+    }
 
     struct slist *subject_names = cert_get_subject_names(remote_cert);
 
@@ -1726,8 +1728,10 @@ static int get_peer_subject_cn(struct xcm_socket *s, void *context,
 {
     struct btls_socket *bts = TOBTLS(s);
 
-    if (bts->conn.state != conn_state_ready)
-	return 0;
+    if (bts->conn.state != conn_state_ready) {
+	errno = ENOENT;
+	return -1;
+    }
 
     X509 *remote_cert = SSL_get_peer_certificate(bts->conn.ssl);
     if (remote_cert == NULL) {
